@@ -67,7 +67,7 @@ def specWf (sp : SuiteSpec) : Bool :=
 def entryRfcOk (e : Nat × List Nat) : Bool :=
   let ps := splitName Gen.cipherSuiteParts e.2
   match ofDenoted ps, Pipeline.suiteArgs ps with
-  | some sp, some a => specWf sp && argsEq a (argsOf sp)
+  | some sp, some a => specWf sp && argsEq a (argsOf sp) && (e.1 / 256 != 0x13 || (cls13 sp).isSome)
   | _, _ => false
 
 /-- kernel evaluation over the whole generated table -/
@@ -77,7 +77,7 @@ theorem table_rfc_ok : Gen.cipherSuites.all entryRfcOk = true := by decide +kern
     code point's IANA name, and `generate_keys` reads exactly that suite from them. -/
 theorem resolve_rfc (cs : Nat) (h : CipherSuite.resolve cs ≠ none) :
     ∃ ps sp, CipherSuite.resolve cs = some ps ∧ suiteOfCode cs = some sp ∧ specWf sp = true ∧
-      Pipeline.suiteArgs ps = some (argsOf sp) := by
+      Pipeline.suiteArgs ps = some (argsOf sp) ∧ (cs / 256 = 0x13 → ∃ cls, cls13 sp = some cls) := by
   have hsc := Props.C14.resolve_sound_complete cs
   cases hr : CipherSuite.resolve cs with
   | none => exact absurd hr h
@@ -103,9 +103,13 @@ theorem resolve_rfc (cs : Nat) (h : CipherSuite.resolve cs ≠ none) :
         | some a =>
           rw [ho, ha] at hok
           simp only [Bool.and_eq_true] at hok
-          refine ⟨ps, sp, rfl, ?_, hok.1, ?_⟩
+          refine ⟨ps, sp, rfl, ?_, hok.1.1, ?_, ?_⟩
           · simp only [suiteOfCode, hl, hd, Option.bind_some, ho]
-          · rw [← argsEq_eq _ _ hok.2]; exact ha
+          · rw [← argsEq_eq _ _ hok.1.2]; exact ha
+          · intro h13
+            have := hok.2
+            simp only [h13, bne_self_eq_false, Bool.false_or] at this
+            exact Option.isSome_iff_exists.mp this
 
 /-! ### B. the class -/
 
